@@ -1,7 +1,7 @@
 (* C08 - Guards: cond/unless conjunction and Python-faithful boolean expressions.  Statements only. *)
 From Coq Require Import List Arith Bool ZArith.
 Import ListNotations.
-From PySM Require Import Impl.Engine Impl.Guards Proofs.EngineProofs Proofs.GuardsProofs.
+From PySM Require Import Impl.Engine Impl.Guards Proofs.EngineProofs Proofs.GuardsProofs Proofs.GuardsValue.
 
 (* ---- the guard list of a transition is a conjunction, evaluated in order ---- *)
 (* [AllHold g x ws c c']: evaluating the entries [ws] in order from [c], every one holds *)
@@ -59,6 +59,25 @@ Theorem C08_guard_expression_is_python :
       end.
 Proof. exact guard_is_python. Qed.
 Print Assumptions C08_guard_expression_is_python.
+
+(* chained comparisons included: for EVERY expression of the grammar and every environment the
+   closure tree has Python's value and raises TypeError exactly when Python does (a chain a < b < c
+   is built as (a < b) and (b < c): the middle operand is read once per comparison it takes part in,
+   so only the read sequence differs, and only for chains) *)
+Theorem C08_value_is_python_for_every_expression :
+  forall rho e, fst (eval_closure rho (build e)) = fst (py_eval rho e).
+Proof. exact build_value_is_python_fst. Qed.
+Print Assumptions C08_value_is_python_for_every_expression.
+
+Theorem C08_guard_entry_is_python_for_every_expression :
+  forall rho e expected,
+    guard_holds rho e expected =
+      match fst (py_eval rho e) with
+      | EV v => Some (Bool.eqb (truthy v) expected)
+      | ETypeError => None
+      end.
+Proof. exact guard_is_python_all. Qed.
+Print Assumptions C08_guard_entry_is_python_for_every_expression.
 
 Theorem C08_and_short_circuits :
   forall rho x r v rd, py_eval rho x = (EV v, rd) -> truthy v = false -> py_eval rho (EAnd x r) = (EV v, rd).
